@@ -104,16 +104,28 @@ theorem verdict_correct {fuel : Nat} {cnf : CNF} {o : Oracle} :
 example : (∃ σ, Sat σ exSat) ∧ ¬ ∃ σ, Sat σ exUnsat :=
   ⟨verdict_correct.1 _ exSat_run, verdict_correct.2 _ _ exUnsat_run⟩
 
+/-- `unit_propagate` needs at most one round per variable: with more fuel than variables (the main
+loop passes `nvars + 2`) the model's inner loop never runs out — every propagation assigns a variable
+that was unassigned.  `vs` is any list containing the variables of the clauses. -/
+theorem unit_propagate_fuel_suffices {vs : List Nat} {cnf : CNF}
+    (hvs : ∀ c ∈ cnf, ∀ l ∈ c, l.1 ∈ vs) (fuel : Nat) (tr : Trail) (level : Nat)
+    (h : vs.length < fuel) : (unitPropagate fuel cnf tr level).1 ≠ .outOfFuel :=
+  unitPropagate_fuel_suffices hvs fuel tr level
+    (Nat.lt_of_le_of_lt (freeVars_le vs tr) h)
+
+example : (unitPropagate 3 [[(0, true)], [(0, false), (1, true)]] [] 0).1 = .sat := by rfl
+
 /-- `solve_cnf` never raises: the `assert` in `analyze_conflict`, the clause lookups and the
-`clause[-2]` / `assigns[name]` indexing in `backtrack` cannot fail, for any CNF and any set order.
-(The only other outcome of the model is running out of the fuel that stands in for `while True`;
-termination itself is not proved.) -/
+`clause[-2]` / `assigns[name]` indexing in `backtrack` cannot fail, for any CNF and any set order;
+nor does the inner fuel of `unit_propagate` run out (`.propFuel`).  The only other outcome of the
+model is `.outOfFuel`: the fuel argument, which stands in for `while True` of the main loop and of
+`analyze_conflict`, was too small; termination itself is not proved. -/
 theorem no_crash {fuel : Nat} {cnf : CNF} {o : Oracle} {e : Err}
     (h : solveCnf fuel cnf o = .error e) : e = .outOfFuel :=
   (solveCnf_spec fuel cnf o).2.2 e h
 
 example : solveCnf 1 exUnsat ⟨[0,1],[]⟩ = .error .outOfFuel := by rfl
-example : solveCnf 100 exUnsat ⟨[0,1],[]⟩ ≠ .error .assertion := fun h => by cases no_crash h
+example : solveCnf 100 exUnsat ⟨[0,1],[]⟩ ≠ .error .propFuel := fun h => by cases no_crash h
 
 /-! ### Tseitin rules, regenerated from `library/sat.json` on every run (Gen.lean) -/
 
